@@ -323,7 +323,7 @@ func runC12(c *Ctx) {
 	r := c.R
 	uriPool := []string{"/api/v1", "/index.php", "/a%20b", "/x?y=1", "/", "/feed/2024,10/items", "/a,b"}
 	hdrPool := []string{"X-Token: secret", "X-Multi: a: b", "Accept-Encoding: gzip", "Connection: close", "X-Case: MiXeD", "X-Colon: k:v", "Cookie: a=b; c=d", "NoSpace:here", "X-Empty: ", "Accept-Language: en-US,en;q=0.9", "X-List: a,b,c"}
-	respPool := []string{"Server: Apache", "Location: http://x.example/p?a=b", "X-Time: 12:30:45", "Cache-Control: no-cache", "X-Trim:   padded  ", "Set-Cookie: a=b; Path=/", "Broken"}
+	respPool := []string{"Server: Apache", "Location: http://x.example/p?a=b", "X-Time: 12:30:45", "Cache-Control: no-cache", "X-Trim:   padded  ", "Set-Cookie: a=b; Path=/", "Broken", "X-Frame-Options:DENY", "X-Loc:https://cdn.example.com/app", "X-Tight:a:b"}
 	for _, redir := range []string{"0", "1"} { // through a real Teamserver: started, edited 0-2 times, then a registration with a forwarded-for header
 		for _, edits := range []int{0, 1, 2} {
 			c.Count("viaserver")
@@ -377,7 +377,7 @@ func runC12(c *Ctx) {
 		}
 		nreq := 8 + r.Intn(10)
 		for q := 0; q < nreq; q++ {
-			method := gen.Pick(r, []string{"POST", "POST", "POST", "POST", "POST", "GET", "PUT", "HEAD", "OPTIONS", "DELETE", "PATCH", "post"})
+			method := gen.Pick(r, []string{"POST", "POST", "POST", "POST", "POST", "GET", "PUT", "HEAD", "OPTIONS", "DELETE", "PATCH", "post", "TRACE", "PROPFIND", "MKCOL", "PURGE", "REPORT", "FOO", "CONNECT"})
 			uri := gen.Pick(r, uriPool)
 			if len(uris) > 0 && uris[0] != "" && r.Chance(3, 5) {
 				uri = gen.Pick(r, uris)
